@@ -475,11 +475,21 @@ package router
 // writeResp: exactly one datagram - the caller's bytes, to the caller's client - through a socket that is held
 // (its write lock) for the duration of that one write and released afterwards.
 //@ spec func udpOK(s *udpServer) bool = s.logger != nil && len(s.cs) >= 1 && forall(k, 0, len(s.cs), s.cs[k] != nil && s.cs[k].c != nil)
+// pickAndLockWmConn: one of the server's own sockets, with its write lock held by the caller (taken exactly once)
 //@ func (s *udpServer) pickAndLockWmConn() (c *wmUdpConn)
-//@   trusted
+//@   props C03 C01
 //@   requires s != nil && udpOK(s)
+//@   ghost nLock int = 0
+//@   ghost gOK bool = false
+//@   oncall Lock?: nLock = nLock + 1
+//@   aftercall TryLock?: nLock = nLock + (ret0 ? 1 : 0)
 //@   modifies nothing
-//@   ensures c != nil && c.c != nil
+//@   ensures c != nil && c.c != nil && exists(k, 0, len(s.cs), s.cs[k] == c)
+//@   ensures [C03:socket-locked-once] nLock == 1
+//@   loop 1:
+//@     modifies nothing
+//@     invariant 0 <= i && nLock == 0
+//@     decreases len(s.cs) - i
 //@ func (s *udpServer) writeResp(b []byte, remote netip.AddrPort, oobAddr netip.Addr)
 //@   props C03 C09
 //@   requires s != nil && udpOK(s)
@@ -795,9 +805,24 @@ package router
 //@   ensures [C13:reassembly-state-consistent] gcc != nil && ccInv(gcc) && inb >= 0
 //@   ensures [C13:returns-only-when-starved] action == gnet.None ==> (gcc.buffer == nil ? inb == 0 : inb < len(gcc.buffer) - gcc.readN)
 //@   callsite Write?: [C13:over-limit-answer-is-one-frame] len(arg1) >= 14 && len(arg1) - 2 <= 65535 && BE16(arg1, 0) == uint16(len(arg1) - 2)
+//@   ghost gM *dnsmsg.Msg = nil
+//@   ghost gB pool.Buffer = nil
+//@   ghost gCCR int32 = 0
+//@   ghost nQ int = 0
+//@   ghost nAns int = 0
+//@   aftercall UnpackMsg?: gM = ret0
+//@   aftercall UnpackMsg?: nQ = nQ + (ret1 == nil ? 1 : 0)
+//@   aftercall Add?: gCCR = ret0
+//@   aftercall mustHaveRespB?: gB = ret0
+//@   oncall Write?: nAns = nAns + 1
+//@   oncall go: nAns = nAns + 1
+//@   ensures [C13:every-decoded-query-is-answered-or-handed-on-once] nAns == nQ
+//@   callsite mustHaveRespB?: [C13:over-limit-answer-is-refused] arg0 == gM && arg1 == nil && arg2 == dnsmsg.RCodeRefused && arg3 == true
+//@   callsite Write?: [C13:over-limit-answer-is-written] arg0 == c && arg1 == gB && gCCR > e.maxConcurrent
+//@   callsite go: [C13:within-the-limit-handled] gCCR <= e.maxConcurrent && captures(m)
 //@   loop 1:
 //@     modifies cc.readN, cc.buffer, cc.readingHdr, cc.err, pkgheaps(dnsmsg), bytes()
-//@     invariant gcc == cc && cc != nil && cc.idleTimer != nil && ccInv(cc) && inb >= 0
+//@     invariant gcc == cc && cc != nil && cc.idleTimer != nil && ccInv(cc) && inb >= 0 && nAns == nQ
 //@     decreases inb
 
 // The per-query goroutine of the gnet listener: one response, written as one frame; the query message is used
